@@ -27,8 +27,9 @@ CONSTANTS MaxLen, GuardAllFields
 
 \* segment classes: n = normal name, dd = "..", d = ".", e = "" (doubled separator),
 \* inner = name containing ".." ("a..b"), bs = "c\..\d" (backslash-separated traversal in one segment),
-\* tdd = "..." (three dots: a normal name)
-Seg == {"n", "dd", "d", "e", "inner", "bs", "tdd"}
+\* tdd = "..." (three dots: a normal name), long = a name of more than 1024 bytes (over the rel_path limit; behaves
+\* like a normal name for Join / Clean - the guard must still reject the path for its ".." segments or its length)
+Seg == {"n", "dd", "d", "e", "inner", "bs", "tdd", "long"}
 Fields == {"root", "dir", "file", "id", "offer"}
 
 VARIABLES field, segs, abs, noRoot, resume, phase
@@ -55,7 +56,8 @@ Below(target) == IsPrefix(Out, target)
 
 \* validateRelPath after fix de01a4b: no ".." segment under either separator, not absolute, not empty
 HasDotDotSegment(s) == \E i \in 1..Len(s) : s[i] \in {"dd", "bs"}
-ValidRel(s, isAbs) == ~HasDotDotSegment(s) /\ ~isAbs /\ s # <<>> /\ ~(Len(s) = 1 /\ s[1] = "e")
+TooLong(s) == \E i \in 1..Len(s) : s[i] = "long"
+ValidRel(s, isAbs) == ~HasDotDotSegment(s) /\ ~TooLong(s) /\ ~isAbs /\ s # <<>> /\ ~(Len(s) = 1 /\ s[1] = "e")
 \* an identifier / root name must be a single harmless name
 ValidName(s, isAbs) == ~isAbs /\ Len(s) = 1 /\ s[1] \in {"n", "inner", "tdd"}
 
